@@ -456,6 +456,9 @@ def at_limit_family(tier):
     return [h for h in out if all(len(t) <= LIM for _, t in h)]      # callers' contract: the text fits the line buffer
 
 
+PROG_DEFAULT = {"@N": "ap", "@V": "1.2"}      # program name / version unless a step's environment sets @N / @V
+
+
 def record(ctx, exe, scripts, tag="rec"):
     """Runs histories [(env, text), ...] on the implementation in record mode.  Returns (events, index, texts, nrecorded)."""
     keytok = tok([b(k) for k in sorted(TKEYS)])
@@ -494,7 +497,10 @@ def record(ctx, exe, scripts, tag="rec"):
                            {"variant": "pass-aa", "harness_args": ["aa", keytok], "script_text": texts[sid - 1]})
                 break
             isnull = ret == "NULL"
-            events.append({"reset": step == 0, "env": [[b(k), b(v)] for k, v in env], "input": b(t), "isnull": isnull,
+            prog = dict(PROG_DEFAULT)
+            prog.update({k: v for k, v in env if k in ("@N", "@V")})
+            events.append({"reset": step == 0, "env": [[b(k), b(v)] for k, v in env if k[:1] != "@"],
+                           "prog": [b(prog["@N"]), b(prog["@V"])], "input": b(t), "isnull": isnull,
                            "got": [] if isnull else untok(ret), "store": untok(state)})
             index.append((sid, step))
     return events, index, texts, len(by) - len(bad)
@@ -521,10 +527,105 @@ def validate(ctx, events, tag="c10"):
     return verdicts, res
 
 
+def filler(n, alphabet="abcdefgh/._-"):
+    return (alphabet * (n // len(alphabet) + 1))[:n]
+
+
+THRESHOLDS = (8, 16, 32, 64, 128, 256, 512, 1024, 2048, 4096, 8192)
+SIZES = sorted(set(n + d for n in THRESHOLDS for d in (-1, 0, 1)) | {126, 129, 254, 258, 1000, 5000})
+
+
+def size_family(tier):
+    """Round 3, class 1 (size thresholds): every piece of state a built-in or a substitution reads - HOME, a variable's value,
+    a variable's name, program name and version, a stored value, an argument, the plain text itself - at lengths n-1, n, n+1
+    around the powers of two and the library's own buffer sizes (127/128 name buffer, 255/256 appname buffer, 4096), one
+    expansion each, validated by TLC."""
+    out = []
+    for n in SIZES:
+        v = filler(n)
+        out.append([([("HOME", v)], "x~y")])
+        out.append([([("A", v)], "x$A y\"${A}\"$(A)")])
+        out.append([([("@N", filler(max(n - 4, 0), "Prog_Name")), ("@V", "1.2")], "[%appname()|%version()]")])     # name-1.2 has n characters
+        out.append([([("@N", "ap"), ("@V", filler(max(n - 3, 0), "0.9"))], "[%appname()|%version()]")])
+        out.append([([], "%%put(ka %s)" % v), ([], "[%get(ka)]%get(kb d)")])
+        out.append([([], "[%%get(kb %s)]" % v)])
+        out.append([([], v)])
+        out.append([([], v + "\\n$E")])
+        if n <= 130:
+            nm = filler(n, "NAME_9")
+            out.append([([(nm, "val")], "x${%s}y$(%s)z$%s-" % (nm, nm, nm))])
+    return [h for h in out if all(len(t) <= 20479 for _, t in h)]
+
+
+def nest(d, inner, call="%get(zz "):
+    return "[" + call * d + inner + ")" * d + "]"
+
+
+DEPTHS = list(range(1, 71)) + [126, 127, 128, 129, 130]
+
+
+def depth_family(tier):
+    """Round 3, class 1 for nesting: %calls nested 1..70 (and around 128) deep, innermost first (the spec's frame stack has
+    no depth bound, TLC evaluates the expectation)."""
+    out = []
+    for d in DEPTHS:
+        out.append([([], nest(d, "w%d" % d))])                                        # default chain: [w<d>]
+        if d <= 70:
+            out.append([([], "%put(ka ka)"), ([], nest(d, "ka", "%get("))])           # store chain: [ka]
+            out.append([([("A", "q")], nest(d, "$A", "%version(") + nest(d, "\\t", "%AppName("))])
+    return out
+
+
+def purity_family(tier):
+    """Round 3, class 3 (state left behind by earlier calls): the same text expanded before and after an adversarial prelude of
+    deep, refused and failed expansions must give the same result.  No %put anywhere, so the histories run in one process
+    after each other and whatever static state a prelude leaves behind also meets every later history."""
+    env = [("HOME", "/home/u"), ("A", "VALUE_7"), ("E", "")]
+    big = [("HOME", "h" * 9000)]
+    probes = [nest(63, "p"), nest(62, "p") + nest(3, "q"), "a\\tb ~ $A ${E}'$A'\"$A\" %get(zz dflt)%version()", nest(20, "$A"),
+              "%appname()", "x"]
+    preludes = [[nest(64, "x")], [nest(65, "x"), nest(70, "x")], [nest(64, "x")] * 3, [nest(64 + k, "x") for k in range(8)],
+                ["%get(a", "%get(%get(a)", "%version("], ["%get()", "%put(a)", "%get(a b c)", "%x", "%"],
+                ["${A", "$(", "x\\"], ["%get(a))(", "'%get(a)'"], ["~~~", "~~~" + "p" * 5000]]
+    out = []
+    for p in probes:
+        for q in preludes:
+            out.append([(env, p)] + [(big if x.startswith("~~~") else env, x) for x in q] + [(env, p)])
+    return out
+
+
+def byte_family(tier):
+    """Round 3, class 2 (values outside the small alphabets): every byte value 1..255 in every syntactic position of a value:
+    alone, inside text, escaped, inside both kinds of quotes, after $ ~ %, as argument, as stored value, as variable value."""
+    out = []
+    for c in range(1, 256):
+        if c == 96:
+            continue                      # back-quote: C11
+        ch = chr(c)
+        hist = [([], ch), ([], "x" + ch + "y"), ([], ch + "x"), ([], "\\" + ch + "z"), ([], "'" + ch + "'" + ch), ([], '"' + ch + '"'),
+                ([("A", "v")], "$A" + ch + "$" + ch + "A"), ([("HOME", "/h")], "~" + ch + "~"), ([], "%get(kb " + ch + ")"),
+                ([], "%get(" + ch + " d)")]
+        if c != 10:      # setenv values may hold any byte but NUL
+            hist.append(([("A", "p" + ch + "q")], "[$A]${A}"))
+        out.append(hist)
+        out.append([([], "%put(ka " + ch + "x)"), ([], "[%get(ka)]")])
+    return out
+
+
 def trace_validation(ctx, exe):
     rnd = random.Random(ctx.seed + 10)
     nscripts, nlong = (260, 8) if ctx.tier == "quick" else (3000, 40)
     scripts = gen_traces(rnd, nscripts, nlong) + at_limit_family(ctx.tier)
+    fams = {"random+at-limit": len(scripts)}
+    pur0 = None
+    for name, f in (("size-thresholds", size_family), ("nesting-depth", depth_family), ("purity-across-calls", purity_family),
+                    ("all-byte-values", byte_family)):
+        if name == "purity-across-calls":
+            pur0 = len(scripts)
+        add = f(ctx.tier)
+        fams[name] = len(add)
+        scripts += add
+    npur = fams["purity-across-calls"]
     events, index, texts, nrec = record(ctx, exe, scripts)
     if not events:
         raise Broken("no trace events recorded")
@@ -547,6 +648,25 @@ def trace_validation(ctx, exe):
                            v["l"], len(t), t[:120], [(k, x[:20]) for k, x in env], len(ev["got"]), text_of(ev["got"][:120]), ev["store"]),
                        {"variant": "pass-aa", "history": [[list(map(list, env_)), t_] for env_, t_ in scripts[sid - 1]], "step": step,
                         "got": text_of(ev["got"])[:2000], "store": ev["store"]})
+    # purity across calls: first and last event of a purity history are the same text in the same environment
+    first = {}
+    for k, (sid, step) in enumerate(index):
+        first.setdefault(sid, []).append(k)
+    ncmp = 0
+    for sid in range(pur0 + 1, pur0 + npur + 1):
+        ks = first.get(sid) or []
+        if len(ks) != len(scripts[sid - 1]):
+            continue
+        a, z = events[ks[0]], events[ks[-1]]
+        ncmp += 1
+        if (a["isnull"], a["got"]) != (z["isnull"], z["got"]):
+            env, t = scripts[sid - 1][0]
+            ctx.report("purity-across-calls expand [%s]" % kinds(b(t), env),
+                       "the same text in the same environment and store gives %r before and %r after a prelude of deep/refused/failed expansions (%s)" % (
+                           text_of(a["got"])[:80], "NULL" if z["isnull"] else text_of(z["got"])[:80], [x[:24] for _, x in scripts[sid - 1][1:-1]]),
+                       {"variant": "pass-aa", "history": [[list(map(list, env_)), t_] for env_, t_ in scripts[sid - 1]], "step": len(ks) - 1})
+    ctx.add("purity_across_calls_pairs", ncmp)
+    ctx.cov["trace_families"] = fams
     ctx.add("trace_events_validated", len(verdicts))
     ctx.add("traces_validated_against_impl", nrec)
     ctx.cov["trace"] = {"scripts": len(scripts), "events": len(events), "events_claimed": nclaimed, "events_truncated_at_limit": ntrunc,
